@@ -71,6 +71,28 @@ theorem c03_methods (l ms : List String) (h : mkMethods l = some ms) (m : String
 example : mkMethods ["ALL", "!POST", "!TRACE"] = some ["CONNECT", "DELETE", "GET", "HEAD", "OPTIONS", "PATCH", "PUT"] := by
   decide
 
+/-- **The method clause, end to end**: for the route built from a configured list `l` the request's method is
+accepted iff nothing is configured, or the method is listed (directly or through `ALL`), is not a negated entry and
+is not excluded by `!method`.  In particular a configured list never degenerates to "any method": a list that allows
+nothing (`["!GET"]`, `["GET", "!GET"]`) is a configuration error (`mkMethods = none`, second statement). -/
+theorem c03_method_clause (l ms : List String) (h : mkMethods l = some ms) (r : RouteM) (hr : r.methods = ms)
+    (q : ReqView) :
+    methodOk r q = true ↔
+      l = [] ∨ (q.method ∈ expandAll l ∧ isNeg q.method = false ∧ ("!" ++ q.method) ∉ expandAll l) := by
+  by_cases hl : l = []
+  · subst hl
+    have : ms = [] := by
+      have : mkMethods [] = some [] := by decide
+      rw [this] at h; exact (Option.some.inj h).symm
+    simp [methodOk, hr, this]
+  · have hne := mkMethods_nonempty l ms hl h
+    have hemp : ms.isEmpty = false := by cases ms <;> simp_all
+    simp only [methodOk, hr, hemp, Bool.false_or, List.contains_iff_mem, hl, false_or]
+    exact mem_mkMethods l ms h q.method
+
+theorem c03_method_list_allowing_nothing_is_rejected :
+    mkMethods ["!GET"] = none ∧ mkMethods ["GET", "!GET"] = none ∧ mkMethods ["ALL", "!GET"] ≠ none := by decide
+
 /-- `ALL` expansion, spelled out -/
 theorem c03_expandAll (l : List String) (m : String) :
     m ∈ expandAll l ↔ (m ∈ l ∧ ("ALL" ∈ l → m ≠ "ALL")) ∨ ("ALL" ∈ l ∧ m ∈ stdMethods) := by
